@@ -381,17 +381,12 @@ func (e *Eng) freshNonNil(name string, t types.Type) *Val {
 	return v
 }
 
-var globals = map[*Eng]map[string]*Val{}
-
 func (e *Eng) globalVal(key string, t types.Type) *Val {
-	if globals[e] == nil {
-		globals[e] = map[string]*Val{}
-	}
-	if v, ok := globals[e][key]; ok {
+	if v, ok := e.globals[key]; ok {
 		return v
 	}
 	v := e.freshVal(key, t)
-	globals[e][key] = v
+	e.globals[key] = v
 	return v
 }
 
@@ -520,11 +515,9 @@ func (e *Eng) evalSlice(st *State, x *ast.SliceExpr) *Val {
 	return e.freshVal("sl", e.info.TypeOf(x))
 }
 
-var substrDeclared = map[*Eng]bool{}
-
 func (e *Eng) ensureSubstr() {
-	if !substrDeclared[e] {
-		substrDeclared[e] = true
+	if !e.substrDone {
+		e.substrDone = true
 		e.decls = append(e.decls, "(declare-fun substr (Str Int Int) Str)",
 			"(assert (forall ((s Str) (a Int) (b Int)) (! (=> (and (<= 0 a) (<= a b) (<= b (slen s))) (= (slen (substr s a b)) (- b a))) :pattern ((substr s a b)))))",
 			"(assert (forall ((s Str) (a Int) (b Int) (k Int)) (! (=> (and (<= 0 a) (<= a b) (<= b (slen s)) (<= 0 k) (< k (- b a))) (= (sbyte (substr s a b) k) (sbyte s (+ a k)))) :pattern ((sbyte (substr s a b) k)))))")
